@@ -101,6 +101,41 @@ type ticketSpec struct {
 }
 
 func mintTicket(s ticketSpec) (messages.Ticket, error) {
+	t, _, err := mintTicketParts(s)
+	return t, err
+}
+
+// shadow structures used to put a ticket with a trailing, cleartext EncTicketPart on the wire
+type trailerTicket struct {
+	TktVNO  int                    `asn1:"explicit,tag:0"`
+	Realm   string                 `asn1:"generalstring,explicit,tag:1"`
+	SName   types.PrincipalName    `asn1:"explicit,tag:2"`
+	EncPart types.EncryptedData    `asn1:"explicit,tag:3"`
+	Trailer messages.EncTicketPart // what Ticket.Unmarshal would put into DecryptedEncPart
+}
+type wireAPReq struct {
+	PVNO                   int                 `asn1:"explicit,tag:0"`
+	MsgType                int                 `asn1:"explicit,tag:1"`
+	APOptions              asn1.BitString      `asn1:"explicit,tag:2"`
+	Ticket                 asn1.RawValue       `asn1:"explicit,tag:3"`
+	EncryptedAuthenticator types.EncryptedData `asn1:"explicit,tag:4"`
+}
+
+func marshalAPReqWithTrailer(ap messages.APReq, etp messages.EncTicketPart) ([]byte, error) {
+	tb, err := asn1.Marshal(trailerTicket{TktVNO: ap.Ticket.TktVNO, Realm: ap.Ticket.Realm, SName: ap.Ticket.SName, EncPart: ap.Ticket.EncPart, Trailer: etp})
+	if err != nil {
+		return nil, err
+	}
+	tb = asn1tools.AddASNAppTag(tb, asnAppTag.Ticket)
+	b, err := asn1.Marshal(wireAPReq{PVNO: ap.PVNO, MsgType: ap.MsgType, APOptions: ap.APOptions,
+		Ticket: asn1.RawValue{Class: asn1.ClassContextSpecific, IsCompound: true, Tag: 3, Bytes: tb}, EncryptedAuthenticator: ap.EncryptedAuthenticator})
+	if err != nil {
+		return nil, err
+	}
+	return asn1tools.AddASNAppTag(b, asnAppTag.APREQ), nil
+}
+
+func mintTicketParts(s ticketSpec) (messages.Ticket, messages.EncTicketPart, error) {
 	fl := types.NewKrbFlags()
 	if s.flagInvalid {
 		types.SetFlag(&fl, flags.Invalid)
@@ -116,15 +151,15 @@ func mintTicket(s ticketSpec) (messages.Ticket, error) {
 	}
 	b, err := asn1.Marshal(etp)
 	if err != nil {
-		return messages.Ticket{}, err
+		return messages.Ticket{}, etp, err
 	}
 	b = asn1tools.AddASNAppTag(b, asnAppTag.EncTicketPart)
 	ed, err := crypto.GetEncryptedData(b, s.sealKey, s.sealUsage, s.kvnoLabel)
 	if err != nil {
-		return messages.Ticket{}, err
+		return messages.Ticket{}, etp, err
 	}
 	ed.EType = s.etLabel
-	return messages.Ticket{TktVNO: 5, Realm: s.realmLabel, SName: types.PrincipalName{NameType: 3, NameString: s.snameLabel}, EncPart: ed}, nil
+	return messages.Ticket{TktVNO: 5, Realm: s.realmLabel, SName: types.PrincipalName{NameType: 3, NameString: s.snameLabel}, EncPart: ed}, etp, nil
 }
 
 type authSpec struct {
